@@ -14,7 +14,10 @@ Inductive doc : Type :=
 | DNull
 | DBool (b : bool)
 | DInt (ty : option ity) (z : Z)        (* `-`? digits suffix?, e.g. 7, -5i8, 255u8 *)
-| DFloat (neg : bool) (s : list N)        (* `-`? followed by the float literal spelt s *)
+| DFloat (neg : bool) (s : list N) (sfx : option fty) (r : list N)
+    (* `-`? followed by the float literal written s with suffix sfx; r is the spelling the float
+       printer gives to the float the literal denotes (r = s for a literal that is re-spelt as
+       itself): the literal passes through its float type, so r is its JSON text *)
 | DStr (s : list N)
 | DArr (l : list doc) (tc : bool)
 | DObj (l : list (kform * list N * doc)) (tc : bool).
@@ -49,7 +52,7 @@ Fixpoint tokens (d : doc) : list tt :=
   | DNull => [TIdent INull]
   | DBool b => [TLit (LBool b)]
   | DInt ty z => if (z <? 0)%Z then [TPunct PMinus; TLit (LInt (Z.abs_N z) ty)] else [TLit (LInt (Z.abs_N z) ty)]
-  | DFloat neg s => if neg then [TPunct PMinus; TLit (LFloat s)] else [TLit (LFloat s)]
+  | DFloat neg s sfx _ => if neg then [TPunct PMinus; TLit (LFloat s sfx)] else [TLit (LFloat s sfx)]
   | DStr s => [TLit (LStr s)]
   | DArr l tc => [TGroup Bracket (sep_tokens (map tokens l) tc)]
   | DObj l tc =>
@@ -67,7 +70,7 @@ Fixpoint text (d : doc) : list N :=
   | DBool true => s2l "true"
   | DBool false => s2l "false"
   | DInt _ z => dec_of_Z z
-  | DFloat neg s => if neg then 0x2D :: s else s
+  | DFloat neg _ _ r => if neg then 0x2D :: r else r
   | DStr s => quote s
   | DArr l _ => [0x5B] ++ join [0x2C] (map text l) ++ [0x5D]
   | DObj l _ => [0x7B] ++ join [0x2C] (map (fun e => quote (dkey e) ++ [0x3A] ++ text (dval e)) l) ++ [0x7D]
@@ -79,7 +82,7 @@ Fixpoint value_of (d : doc) : value :=
   | DNull => VNull
   | DBool b => VBool b
   | DInt _ z => VNum (dec_of_Z z)
-  | DFloat neg s => VNum (if neg then 0x2D :: s else s)
+  | DFloat neg _ _ r => VNum (if neg then 0x2D :: r else r)
   | DStr s => VStr s
   | DArr l _ => VArr (map value_of l)
   | DObj l _ => VObj (map (fun e => (dkey e, value_of (dval e))) l)
@@ -94,13 +97,18 @@ Definition Z_of_dec (l : list N) : Z :=
   end.
 
 (* ---------- the domain ---------- *)
+(* an unsigned JSON number (what a float printer may answer: 0, 100, 1.5, 1e21, 2.5e-7) *)
+Definition unsigned_num (r : list N) : Prop :=
+  exists i f e, jint i /\ jfrac f /\ jexp e /\ r = i ++ f ++ e.
+
 (* float literals common to Rust and JSON: int part without a leading zero, a fraction or
-   an exponent (or both) *)
+   an exponent (or both); those among them that are re-spelt as themselves (r = s) are the
+   literals for which the JSON text is the literal text itself *)
 Definition float_lit (s : list N) : Prop :=
   exists i f e, jint i /\ jfrac f /\ jexp e /\ (f <> [] \/ e <> []) /\ s = i ++ f ++ e.
 
 Section Dom.
-  Variable fmt_f64 : list N -> option (list N).
+  Variable fmt_float : fty -> list N -> option (list N).
   Variable env : list N -> option (list N).
 
   Definition key_ok (kf : kform) (k : list N) : Prop :=
@@ -114,7 +122,7 @@ Section Dom.
     | DNull => True
     | DBool _ => True
     | DInt ty z => (ity_min (ity_of ty) <= z <= ity_max (ity_of ty))%Z
-    | DFloat _ s => float_lit s /\ fmt_f64 s = Some s
+    | DFloat _ s sfx r => unsigned_num r /\ fmt_float (match sfx with Some t => t | None => FT64 end) s = Some r
     | DStr s => Forall (fun c => is_scalar c = true) s
     | DArr l _ =>
         (fix go (l : list doc) : Prop := match l with [] => True | x :: r => dom x /\ go r end) l
